@@ -7,6 +7,16 @@ Open Scope N_scope.
 
 Definition P_reduce := 3.
 
+Definition fmt_eqb (a b : fmt) : bool :=
+  match a, b with
+  | FNone, FNone => true
+  | FNumber x, FNumber y | FDate x, FDate y | FTime x, FTime y => x =? y
+  | FDateTime a1 a2, FDateTime b1 b2 | FList a1 a2, FList b1 b2 => (a1 =? b1) && (a2 =? b2)
+  | FCurrency w c, FCurrency w' c' => (w =? w') && str_eqb c c'
+  | _, _ => false
+  end.
+
+
 (** Rust Display of integers *)
 Fixpoint dec_aux (fuel : nat) (n : N) (acc : str) : str :=
   match fuel with
@@ -69,14 +79,14 @@ Inductive piece :=
 | PcComp (k : str) (inner : list piece)
 | PcForeign (ns : option str) (path : list str) (args : list (str * list piece)).
 
-(** append one piece to a reversed sequence, merging adjacent text and dropping empty text *)
-Definition pc_push (racc : list piece) (p : piece) : list piece :=
+(** normal form of a piece sequence: empty text dropped, adjacent text merged *)
+Definition pc_cons (p : piece) (l : list piece) : list piece :=
   match p with
-  | PcText [] => racc
-  | PcText s => match racc with PcText t :: r => PcText (t ++ s) :: r | _ => p :: racc end
-  | _ => p :: racc
+  | PcText [] => l
+  | PcText s => match l with PcText t :: r => PcText (s ++ t) :: r | _ => p :: l end
+  | _ => p :: l
   end.
-Definition pc_norm (l : list piece) : list piece := rev (fold_left pc_push l []).
+Definition pc_norm (l : list piece) : list piece := fold_right pc_cons [] l.
 
 Fixpoint pieces_raw (v : pv) : list piece :=
   match v with
